@@ -42,6 +42,9 @@ type c02Gen struct {
 	inFin  int // nesting of finally bodies being generated
 	// onlyLoops: nested compound statements are loops (a slice of the family for the quick tier)
 	onlyLoops bool
+	// tight: bodies hold the inner statement only (or pass), no probes: the code object then has
+	// no slack in its declared stack size beyond what the statement itself needs (C12)
+	tight bool
 }
 
 func (g *c02Gen) probe() ast.Stmt {
@@ -94,6 +97,13 @@ func (g *c02Gen) inner(inLoop bool, level int) []ast.Stmt {
 }
 
 func (g *c02Gen) body(inLoop bool, level int) []ast.Stmt {
+	if g.tight {
+		b := g.inner(inLoop, level)
+		if len(b) == 0 {
+			b = []ast.Stmt{&ast.Pass{}}
+		}
+		return b
+	}
 	b := []ast.Stmt{g.probe()}
 	b = append(b, g.inner(inLoop, level)...)
 	b = append(b, g.probe())
